@@ -217,6 +217,7 @@ type remote struct {
 	unchokedByStorrent bool
 	pendingUp          []rc.Msg // our requests storrent may still answer
 	cancelledUp        []rc.Msg // requests we cancelled (a Fast peer acknowledges with a reject)
+	told               map[uint32]bool // what storrent has told this remote it holds (Bitfield/Have/HaveAll/HaveNone/DontHave)
 	votedSize          uint32   // metadata size announced in the remote's extended handshake
 	goneBefore         bool     // the peer had already exited before the transition being judged
 	gated              bool     // the peer's main loop parks before every select and takes the arm the harness names
@@ -944,6 +945,12 @@ func (r *remote) onFrame(m rc.Msg, raw []byte) {
 			w.problem("C11", "C11/bitfield-not-first", "Bitfield sent to remote %d after other messages", r.idx)
 		}
 		r.gotBitfield = true
+		r.told = map[uint32]bool{}
+		for i := uint32(0); i < n && int(i/8) < len(m.Data); i++ {
+			if m.Data[i/8]&(0x80>>(i%8)) != 0 {
+				r.told[i] = true
+			}
+		}
 		if want := (int(n) + 7) / 8; len(m.Data) != want {
 			w.problem("C11", "C11/bitfield-length", "Bitfield of %d bytes for %d pieces (must be %d)", len(m.Data), n, want)
 		} else if n%8 != 0 && len(m.Data) > 0 {
@@ -956,12 +963,23 @@ func (r *remote) onFrame(m rc.Msg, raw []byte) {
 			w.problem("C11", "C11/fast-message-to-non-fast-peer", "%s sent to remote %d which did not negotiate the Fast extension", m.Kind, r.idx)
 		}
 		r.gotOther = true
+		r.told = map[uint32]bool{}
+		if m.Kind == rc.HaveAll {
+			for i := uint32(0); i < n; i++ {
+				r.told[i] = true
+			}
+		}
 	case rc.Have:
 		r.gotOther = true
+		if r.told == nil {
+			r.told = map[uint32]bool{}
+		}
+		r.told[m.Index] = true
 		if metaKnown && m.Index >= n {
 			w.problem("C11", "C11/have-out-of-range", "Have %d sent, the torrent has %d pieces", m.Index, n)
 		}
 	case rc.ExtDontHave:
+		delete(r.told, m.Index)
 		if metaKnown && m.Index >= n {
 			w.problem("C11", "C11/donthave-out-of-range", "DontHave %d sent, the torrent has %d pieces", m.Index, n)
 		}
@@ -1694,6 +1712,16 @@ func (w *World) apply(tr string) bool {
 		writePeer(r.p, peer.PeerUnchoke{Unchoke: true})
 	case "chokepeer":
 		writePeer(r.p, peer.PeerUnchoke{Unchoke: false})
+	case "stuff": // stuff:<remote>  the torrent has sent this (gated, hence not draining) peer so many commands that its queue is full
+		if r == nil || !r.gated || r.exited() {
+			return false
+		}
+		for len(r.p.Event) < cap(r.p.Event) {
+			select {
+			case r.p.Event <- peer.PeerRequest{}:
+			default:
+			}
+		}
 	case "gate": // gate:<remote>  from now on the peer's main loop takes only the arms the harness names
 		if r == nil || r.gated || r.exited() || !w.cfg.Gates {
 			return false
@@ -1793,6 +1821,15 @@ func (w *World) checkInvariants() {
 		}
 		if len(st.Upload) > 250 {
 			w.problem("C16", "C16/upload-queue-unbounded", "remote %d has %d upload requests queued (limit 250)", r.idx, len(st.Upload))
+		}
+		// C03: an evicted piece is no longer advertised to a peer that can be told so
+		// (lt_donthave); judged when nothing is in transit towards this remote
+		if !r.exited() && !r.closed && !r.stalled && !r.gated && !r.pendingOut() && len(r.p.Event) == 0 && st.WriterLen == 0 && len(w.t.Event) == 0 && r.cfg.DontHave != 0 && r.sentExt0 && (!w.cfg.Magnet || w.t.InfoComplete()) {
+			for i := range r.told {
+				if int(i) < w.g.npieces() && !w.t.Pieces.Complete(i) {
+					w.problem("C03", "C03/evicted-piece-still-advertised", "piece %d is no longer held (evicted or discarded) but remote %d, which negotiated lt_donthave, has not been told: storrent still advertises it", i, r.idx)
+				}
+			}
 		}
 		if !r.exited() && !r.closed && !r.stalled && !r.pendingOut() && len(r.p.Event) == 0 && st.WriterLen == 0 && st.AmUnchoking != r.unchokedByStorrent {
 			w.problem("C16", "C16/choke-state-mismatch", "storrent believes it is unchoking=%v remote %d, the wire says %v", st.AmUnchoking, r.idx, r.unchokedByStorrent)
